@@ -263,6 +263,8 @@ def run(runobj, spec, timeout=10.0, only=None, verbose=False):
         res["lemmas"] = need
     res["trusted_base"] = sorted(res["trusted_base"])
     res["assumed_contracts"] = sorted(res["assumed_contracts"])
+    res.pop("_hf_spent", None)
+    res.pop("_hf_count", None)
     return res
 
 
@@ -273,12 +275,22 @@ def handle_failed(runobj, eng, c, o, res, keep, timeout, rep=None):
     fname = os.path.join(keep, "".join(ch if ch.isalnum() or ch in "._-#@[]" else "_" for ch in o.name) + ".smt2")
     open(fname, "w").write(text)
     model = None
-    try:
-        model = model_values(eng, o, rep=rep)
-    except Exception:
-        model = None
     kinds = CLAUSE_OF_KIND.get(o.kind.split("[")[0], None)
-    wit, tried = witness_search(c, kinds, seed=runobj.seed)
+    # model extraction and the witness search cost up to ~30 s per failed obligation: on a tree where one change fails dozens of
+    # obligations they are done for the first three of each contract and within an overall budget; the rest are still reported
+    # (with the solver's verdict, marked no-failing-input-found)
+    spent = res.setdefault("_hf_spent", 0.0)
+    per_c = res.setdefault("_hf_count", {})
+    per_c[c.name] = per_c.get(c.name, 0) + 1
+    wit, tried = None, 0
+    if per_c[c.name] <= 3 and spent < (150.0 if runobj.tier == "quick" else 900.0):
+        t_hf = time.time()
+        try:
+            model = model_values(eng, o, rep=rep)
+        except Exception:
+            model = None
+        wit, tried = witness_search(c, kinds, seed=runobj.seed)
+        res["_hf_spent"] = spent + (time.time() - t_hf)
     key = base_key(o.name)
     payload = {"obligation": o.name, "what": f"{o.kind} obligation failed: {o.detail}",
                "contract": c.name, "function": c.key, "smt_file": os.path.relpath(fname, os.path.dirname(keep)),
